@@ -19,6 +19,16 @@ Proof.
   split; [exact (proj1 (proj2 (proj2 (dequeue_sound fl c now route target batch ttl o s s' items I H)))) | exact (clamp_batch_range batch)].
 Qed.
 
+(** hence no ready message is starved while capacity is requested: when the clamped batch covers the
+    ready messages of the route/target, every one of them is returned *)
+Theorem C05_all_ready_returned_when_capacity : forall fl c now route target batch ttl o s s' items m,
+  Inv s -> step_dequeue fl c now route target batch ttl o s = (s', RItems items) ->
+  let s2 := deq_pre fl c now o s in
+  Z.of_nat (length (filter (ready now route target) (msgs s2))) <= clamp_batch batch ->
+  In m (msgs s2) -> ready now route target m = true ->
+  In (m_id m) (map (fun it => fst (fst (fst it))) items).
+Proof. exact dequeue_returns_all_when_capacity. Qed.
+
 (** nack with delay d: offered from now + max(d,0), not earlier ... *)
 Theorem C05_nack_schedule : forall c now d m m',
   lease_effect c now (KNack d) m = Some m' -> m_st m' = Queued /\ m_next m' = now + Z.max d 0 /\ m_lease m' = None.
@@ -78,6 +88,7 @@ Example C05_witness :
 Proof. vm_compute. reflexivity. Qed.
 
 Print Assumptions C05_dequeue_count.
+Print Assumptions C05_all_ready_returned_when_capacity.
 Print Assumptions C05_nack_schedule.
 Print Assumptions C05_next_run_never_set_into_past.
 Print Assumptions C05_expiry_visible.
